@@ -1,9 +1,109 @@
-"""Socket-level harnesses (read_frame / skip_bytes / Client::handle coroutines). Filled in later."""
+"""Socket-level harnesses: the real `Client::handle` coroutine (read_frame -> decode -> skip_bytes -> handle_request ->
+write -> shutdown loop) driven over the socket model of mirse/models/tokio_io.py.
+
+A connection's inbound stream is a sequence of symbolic frames laid out back to back on the wire array, optionally followed
+by a partial frame / garbage; how the stream is cut into reads is symbolic (every read size is a solver variable)."""
+import z3
+from mirse.values import *
+from mirse.models.bytesm import Buf, Rope, WIRE
+from mirse.models.tokio_io import Sock
+from .wire import Hdr, new_codec, B
+from .world import St, World, mk, fld
+from .common import mval, same
+
+limit = z3.BitVec('limit', 32)
+
+
+class Stream:
+    """m frames back to back; frame i starts at off[i] (BV64 terms); tail = extra bytes after the last frame"""
+
+    def __init__(self, m, tail=None):
+        self.m = m
+        self.off = [BV(0)]
+        self.H = []
+        for i in range(m):
+            h = Hdr(self.off[i])
+            self.H.append(h)
+            self.off.append(z3.simplify(self.off[i] + 24 + h.body64))
+        self.tail = tail if tail is not None else BV(0)
+        self.total = z3.simplify(self.off[m] + self.tail)
+
+
+def new_connection(E, total, end='eof', wfail=False, cap=4096):
+    sock = Sock(BV(0), total, end, (), False, wfail)
+    return mk(E, 'MemcacheBinaryConnection', stream=sock, codec=new_codec(limit), buffer=Buf(WIRE, BV(0), BV(0), BV(cap)))
+
+
+def new_client(E, w, total, end='eof', wfail=False, sem=None):
+    conn = new_connection(E, total, end, wfail)
+    cfg = mk(E, 'ClientConfig', item_memory_limit=limit, rx_timeout_secs=BV(60, 32), _wx_timeout_secs=BV(60, 32))
+    if sem is None:
+        sem = Ref(E.alloc(Agg('Semaphore', [BV(0)])))
+    client = mk(E, 'Client', stream=conn, addr=Opaque('addr'), config=cfg, handler=E.heap[w.handler_cell], limit_connections=sem)
+    return E.alloc(client), sem
+
+
+def drive(E, coro, max_polls=4):
+    """poll a coroutine to completion -> ('ready', value) | ('pending', None)"""
+    cell = E.alloc(coro)
+    for _ in range(max_polls):
+        c = E.heap[cell]
+        r = E.call(c.fn, [Agg('Pin', [Ref(cell)]), Opaque('cx')])
+        if r.var == 0:
+            return 'ready', r.fields[0]
+        # Pending: in the models only a silent peer or an exhausted semaphore blocks, and nothing will wake it
+        return 'pending', None
+    raise Inconclusive('poll bound')
+
+
+def conn_of(E, client_cell):
+    c = E.heap[client_cell]
+    return fld(E, c, 'Client', 'stream')
+
+
+def sock_of(E, client_cell):
+    return fld(E, conn_of(E, client_cell), 'MemcacheBinaryConnection', 'stream')
+
+
+def watch_handler(E):
+    """record every call of BinaryHandler::handle_request (request variant + header of the request)"""
+    f = E.fn('BinaryHandler', 'handle_request')
+    E.watch = {f.name: lambda E, args: E.events.append(('handle', args[1].var, args[1]))}
+
+
+class Run:
+    pass
+
+
+def run_client(E, st, stream, end='eof', wfail=False, max_reads=4, policy=None, memory_limit=None, key_of=None):
+    E.max_reads = max_reads
+    w = World(E, st, policy, memory_limit)
+    w.map.key_resolver = key_of or (lambda E, k: 0)
+    ccell, sem = new_client(E, w, stream.total, end, wfail)
+    watch_handler(E)
+    handle = E.fn('Client', 'handle')
+    co = E.call(handle, [Ref(ccell)])
+    x = Run()
+    x.w = w
+    E.panic_out = lambda: x
+    x.state, _ = drive(E, co)
+    sock = sock_of(E, ccell)
+    x.out = list(sock.out)
+    x.closed = sock.closed
+    x.rpos = sock.rpos
+    x.buffer = fld(E, conn_of(E, ccell), 'MemcacheBinaryConnection', 'buffer')
+    x.handled = [e for e in E.events if e[0] == 'handle']
+    x.sem = E.load(sem).fields[0]
+    x.client_cell = ccell
+    x.sem_ref = sem
+    return x
 
 
 def c09_socket(ck, tier):
-    ck.notes.append('socket level not built yet')
+    from . import C13
+    C13.socket_checks(ck, tier, for_prop='C09')
 
 
 def c10_socket(ck, tier):
-    ck.notes.append('socket level not built yet')
+    from . import C13
+    C13.socket_checks(ck, tier, for_prop='C10')
